@@ -91,12 +91,19 @@ def enc_i(i):
 
 
 def enc_header(h):
-    """Visible state of a tr31.Header object."""
+    """Visible state of a tr31.Header object, read through its public interface only (attributes, and the optional blocks
+    through the mapping protocol: iteration, item access, len, membership). A mapping that disagrees with itself is marked
+    in the state string, so it shows up as a disagreement with the model."""
     def f(x):
         return ",".join(str(ord(ch)) for ch in x)
-    blocks = ";".join(f(k) + "~" + f(v) for k, v in h.blocks._blocks.items())
-    return "H:" + "/".join([f(h._version_id), f(h._key_usage), f(h._algorithm), f(h._mode_of_use),
-                            f(h._version_num), f(h._exportability), f(h._reserved), blocks])
+    ids = list(h.blocks)
+    items = [(k, h.blocks[k]) for k in ids]
+    blocks = ";".join(f(k) + "~" + f(v) for k, v in items)
+    odd = ""
+    if len(h.blocks) != len(ids) or not all(k in h.blocks for k in ids) or len(set(ids)) != len(ids):
+        odd = "/!inconsistent-mapping"
+    return "H:" + "/".join([f(h.version_id), f(h.key_usage), f(h.algorithm), f(h.mode_of_use),
+                            f(h.version_num), f(h.exportability), f(h.reserved), blocks]) + odd
 
 
 def enc(v):
